@@ -100,20 +100,38 @@ def configs(ss):
         'SIR': lambda seed: ss.Sim(n_agents=120, diseases=ss.SIR(init_prev=0.1, p_death=0.3, beta=0.2), networks=ss.RandomNet(), demographics=dem(), dur=12, rand_seed=seed, verbose=0),
         'SIS': lambda seed: ss.Sim(n_agents=120, diseases=ss.SIS(init_prev=0.1, beta=0.2), networks=ss.RandomNet(), demographics=dem(), dur=12, rand_seed=seed, verbose=0),
         'Measles': lambda seed: ss.Sim(n_agents=150, diseases=ss.Measles(init_prev=0.1, beta=0.9, p_death=0.2), networks=ss.RandomNet(), demographics=dem(), unit='day', dt=2.0, start='2020-01-01', dur=60, rand_seed=seed, verbose=0),
+        'Measles-seeded': lambda seed: ss.Sim(n_agents=3000, diseases=ss.Measles(init_prev=0.4, beta=0.0, p_death=0.3), networks=ss.RandomNet(), unit='day', dt=1.0, start='2020-01-01', dur=3, rand_seed=seed, verbose=0),
         'Ebola': lambda seed: ss.Sim(n_agents=150, diseases=ss.Ebola(init_prev=0.1, beta=0.9), networks=ss.RandomNet(), demographics=dem(), unit='day', dt=2.0, start='2020-01-01', dur=60, rand_seed=seed, verbose=0),
         'Cholera': lambda seed: ss.Sim(n_agents=150, diseases=ss.Cholera(init_prev=0.1, beta=0.9, p_death=0.2), networks=ss.RandomNet(), demographics=dem(), unit='day', dt=1.0, start='2020-01-01', dur=40, rand_seed=seed, verbose=0),
         'Gonorrhea': lambda seed: ss.Sim(n_agents=200, diseases=ss.Gonorrhea(init_prev=0.2, beta={'mf': [0.5, 0.3]}), networks=ss.MFNet(), demographics=dem(), dur=10, rand_seed=seed, verbose=0),
         'HIV': lambda seed: ss.Sim(n_agents=200, diseases=ss.HIV(init_prev=0.1, beta={'mf': [0.3, 0.2]}), networks=ss.MFNet(), demographics=dem(), dur=10, rand_seed=seed, verbose=0),
         'Syphilis': lambda seed: ss.Sim(n_agents=300, diseases=ss.Syphilis(init_prev=0.2, beta={'mf': [0.5, 0.3], 'maternal': [0.9, 0]}), networks=[ss.MFNet(), ss.MaternalNet()],
                                         demographics=[ss.Pregnancy(fertility_rate=40), ss.Deaths(death_rate=20)], dur=12, rand_seed=seed, verbose=0),
+        # treatment products (one product over one disease, and ONE product over two co-circulating diseases), delivered by a capacity-limited treatment
+        'SIR+Tx': lambda seed: ss.Sim(n_agents=150, diseases=ss.SIR(init_prev=0.3, beta=0.2, dur_inf=8, p_death=0.1), networks=ss.RandomNet(), demographics=dem(), dur=14, rand_seed=seed, verbose=0,
+                                      interventions=ss.treat_num(product=ss.Tx(tx_df([('sir', 'infected', 'susceptible', 0.8)])), prob=0.6, max_capacity=15, eligibility=lambda sim: sim.diseases.sir.infected.uids)),
+        'SIS+Tx': lambda seed: ss.Sim(n_agents=150, diseases=ss.SIS(init_prev=0.3, beta=0.2), networks=ss.RandomNet(), demographics=dem(), dur=12, rand_seed=seed, verbose=0,
+                                      interventions=ss.treat_num(product=ss.Tx(tx_df([('sis', 'infected', 'susceptible', 0.8)])), prob=0.6, max_capacity=15, eligibility=lambda sim: sim.diseases.sis.infected.uids)),
+        'flu+rsv+Tx': lambda seed: ss.Sim(n_agents=150, diseases=[ss.SIR(name='flu', init_prev=0.3, beta=0.2, dur_inf=8), ss.SIR(name='rsv', init_prev=0.2, beta=0.3, dur_inf=8)], networks=ss.RandomNet(),
+                                          demographics=dem(), dur=12, rand_seed=seed, verbose=0,
+                                          interventions=ss.treat_num(product=ss.Tx(tx_df([('flu', 'infected', 'recovered', 1.0), ('rsv', 'infected', 'recovered', 0.9)])), prob=0.7, max_capacity=20,
+                                                                     eligibility=lambda sim: sim.diseases.flu.infected.uids.union(sim.diseases.rsv.infected.uids))),
         'SIR+SIS': lambda seed: ss.Sim(n_agents=120, diseases=[ss.SIR(init_prev=0.1, p_death=0.3, beta=0.2), ss.SIS(init_prev=0.1, beta=0.2)], networks=ss.RandomNet(), demographics=dem(), dur=10, rand_seed=seed, verbose=0),
     }
     return cf
 
 
+def tx_df(rows):
+    import pandas as pd
+    return pd.DataFrame([dict(name='tx', disease=d, state=a, post_state=b, efficacy=e) for d, a, b, e in rows])
+
+EXTRA_ARROWS = {'SIR+Tx': {'sir': [('infected', 'susceptible')]}, 'SIS+Tx': {}, 'flu+rsv+Tx': {}}   # moves added by the product table of the configuration
+
+
 def make_probe(ss):
     class Compart(ss.Analyzer):
         def __init__(self, **kw):
+            self.extra_arrows = kw.pop('extra_arrows', {})
             super().__init__(**kw); self.problems = []; self.prev = {}; self.ever = {}; self.events = {}; self.new_series = {}; self.onset_hits = {}
         def step(self):
             sim = self.sim; ppl = sim.people; au = np.asarray(ppl.auids); ti = int(sim.t.ti)
@@ -138,7 +156,7 @@ def make_probe(ss):
                     prev = self.prev.get(dis.name)
                     if prev is not None:
                         m = min(len(prev), n)
-                        allowed = {(sp['part'].index(a), sp['part'].index(b)) for a, b in sp['arrows'] if a in sp['part'] and b in sp['part']}
+                        allowed = {(sp['part'].index(a), sp['part'].index(b)) for a, b in list(sp['arrows']) + list(self.extra_arrows.get(dis.name, [])) if a in sp['part'] and b in sp['part']}
                         both = np.zeros(n, dtype=bool); both[au] = alive
                         for u in np.flatnonzero(both[:m] & (prev[:m] >= 0) & (comp[:m] >= 0) & (prev[:m] != comp[:m])):
                             # several arrows may be taken within one step (e.g. E->I->R when durations are shorter than dt): allow paths
@@ -162,7 +180,7 @@ def make_probe(ss):
                         refs.append(('ti_infected', np.asarray(dis.ti_infected.raw[:n], dtype=float)))
                     act = np.zeros(n, dtype=bool); act[au] = True
                     for other in ('ti_infected', 'ti_recovered', 'ti_dead', 'ti_symptomatic', 'ti_severe'):
-                        if not hasattr(dis, other): continue
+                        if not hasattr(dis, other) or self.extra_arrows.get(dis.name): continue   # a product that returns agents to susceptible leaves stale schedules behind: not judged
                         o = np.asarray(getattr(dis, other).raw[:n], dtype=float)
                         for rname, r in refs:
                             if rname == other: continue
@@ -207,7 +225,7 @@ def run(ctx):
             try:
                 with CallRecorder(ss, scripts) as rec:
                     sim = mk(seed)
-                    sim.pars['analyzers'] = [Compart(name='compart')]
+                    sim.pars['analyzers'] = [Compart(name='compart', extra_arrows=EXTRA_ARROWS.get(name, {}))]
                     sim.run()
             except Exception as E:
                 ctx.violation(f'{name}: run raised {type(E).__name__}: {E}', dict(config=name, seed=seed)); continue
@@ -235,7 +253,7 @@ def run(ctx):
                     new_res = [float(x) for x in np.asarray(dis.results.new_infections)]
                     if cum == ev and new_res != [float(x) for x in probe.new_series[dis.name]]:
                         ctx.violation(f'{name}: {dis.name}.new_infections {new_res} differs from the per-step infection events {probe.new_series[dis.name]}', dict(config=name, seed=seed, disease=dis.name))
-                    if type(dis).__name__ in ('SIR', 'Measles', 'Ebola', 'Cholera', 'HIV') and ev != len(probe.ever[dis.name]):
+                    if type(dis).__name__ in ('SIR', 'Measles', 'Ebola', 'Cholera', 'HIV') and not EXTRA_ARROWS.get(name, {}).get(dis.name) and ev != len(probe.ever[dis.name]):
                         ctx.violation(f'{name}: {dis.name}: {ev} infection events but {len(probe.ever[dis.name])} distinct agents ever infected, in a model without reinfection', dict(config=name, seed=seed, disease=dis.name))
             # correspondence cases
             for call in rec.calls:
